@@ -8,3 +8,6 @@ package traverser
 // token or position, nor an element of a tree-owned slice, nor anything reachable from a
 // package-level variable.
 //@ frame traverser: roots=(*Traverser).*;NewTraverser allow=F:pkg/visitor/traverser.Traverser.* props=C13,C11
+
+// C12: helper contracts.
+//@ trace helper Traverse := [($1 != nil)] $1.Accept($0) || [!(($1 != nil))] 
